@@ -80,6 +80,7 @@ fn shared<R>(f: impl FnOnce(&mut Shared) -> R) -> R {
 }
 
 fn viol(class: &str, msg: String) {
+    sim::runner::early_violation(class, usize::MAX, &msg);
     shared(|s| s.viols.push((class.to_string(), msg)));
 }
 
